@@ -54,9 +54,31 @@ META = {'design_ref': 'DESIGN.md section 7 / C04',
                '(C04_seat_encodes_wire_packet: a seated operation is encoded as its PUBREL when the PUBREL slot is set, as its own packet otherwise; '
                'C04_seat_skips_completed: the id of a completed operation is dropped without encoding anything). For well-formed states / run level '
                '(all event histories, through the WF invariant): C04_wf_close_requeues, C04_wf_session_no_panic, C04_wf_session_present_keeps, '
-               'C04_reachable_close_requeues. NOT proved (partial): the wire-level '
-               'sequence property itself (first transmission DUP=0, resend only after session-present CONNACK, PUBREL after PUBREC, nothing repeated '
-               'within a connection, nothing after completion) and a run-level invariant of the resubmit queue (needs queue disjointness, not part of '
-               'WF) remain the extracted automaton mon_c04 judged on the implementation trace of every sampled history',
+               'C04_reachable_close_requeues. RUN LEVEL, the sequence of transmissions of ONE operation over a whole history (EngineProofs/DeliveryWire*.v, '
+               '3500 lines; premises: component invariants comps_ok, ok_cfg, ok_event, and ok_submit = submitted PUBLISH packets carry DUP=0, which '
+               'the clients validation guarantees): the delivery log of a history lists every encoder construction WITH its operation id, every '
+               'completed write, connection open / close / reset, the processed incoming packets (which CONNACK ran the session rules, which PUBREC '
+               'set the PUBREL slot of which operation) and the submissions; C04_run_machine_accepts: for EVERY history and EVERY operation id the '
+               'per-operation reference machine (the wire-level statement as a state machine: not-sent / seated / pending / interrupted / released / '
+               'gone) accepts the log, and a state relation J is an invariant (proved through every engine function; intermediate states of the '
+               'service loop and of the packet loop via WF + the placement invariant PL). Read off the accepted language, each for every history: '
+               'C04_run_first_transmission (the first PUBLISH handed to the encoder for a submitted QoS 1/2 publish has DUP=0, an identifier in '
+               '1..65535 and the submitted content), C04_run_no_second_publish (between two PUBLISH constructions of an operation there is a '
+               'connection close / open / reset: never twice within one connection), C04_run_pubrel_after_pubrec (after a processed PUBREC that set '
+               'its PUBREL slot everything handed to the encoder for the operation is the PUBREL with the acknowledged identifier, on this and later '
+               'connections, until a CONNACK without session), C04_run_retransmission (a DUP=1 PUBLISH: the CONNACK of the current connection '
+               'reported session present, the PUBLISH was handed to the encoder with the SAME identifier and completely written on an EARLIER '
+               'connection, same content), C04_run_restart (after a CONNACK without session the next packet handed to the encoder for the operation '
+               'is its PUBLISH with DUP=0), C04_run_nothing_after_completion (once an operation id is in the completions of a step no later step '
+               'hands a packet of it to the encoder; no premise at all); C04_instance_* = the same, closed, for the concrete engine; witnesses by '
+               'computation C04_wire_qos2_example (QoS 2 across three connections), C04_wire_qos1_dup_example, C04_wire_pubrel_twice_example (a '
+               'repeated PUBREC makes the PUBREL go out twice within ONE connection, so at-most-one-PUBREL-per-connection is false of the model: it '
+               'is one per processed PUBREC, which the monitor mon_c04 also tolerates). Still NOT proved (partial): (1) the count bound on PUBREL '
+               'constructions (at most one per processed PUBREC / resumed connection), (2) completeness of the handshake at run level (success only '
+               'after PUBACK / PUBREC-then-PUBCOMP carrying the current identifier: only the one-step C04_*_completes theorems), (3) that the '
+               'submission of an operation precedes its first encoder construction in the log (it is a premise, submitted i l1, of the run '
+               'theorems; true of every real log because an operation must exist to be seated), (4) construction log -> bytes on the wire is '
+               'C02_run_wire_stream, not restated here; the extracted automaton mon_c04 keeps judging the implementation trace of every sampled '
+               'history',
  'technique': 'machine-checked proof in Coq over the engine model + lock-step correspondence of the extracted model with the implementation + extracted '
               'monitors on the implementation trace'}
